@@ -346,6 +346,7 @@ fn main() {
         Some("spec") => specgen::cmd_spec(&args[2..]),
         Some("cps") => cpsops::cmd_cps(&args[2..]),
         Some("fold") => cpsops::cmd_fold(&args[2..]),
+        Some("foldeq") => cpsops::cmd_foldeq(&args[2..]),
         Some("props") => cpsops::cmd_props(&args[2..]),
         Some("threads") => threads::cmd_threads(&args[2..]),
         Some("adv") => adv::cmd_adv(&args[2..]),
